@@ -12,6 +12,8 @@ Leg S2C : every TLC state (dump) is loaded into a REAL InMemoryMetricsStore thro
           per task through GlobalStats.metrics(task) as compare does (operation names collide with task names);
           the same store without its warm-up records is evaluated as well and the getters are asked directly for
           the percentiles 0, 50, 90, 99, 99.9, 99.99, 100.
+          Two thirds of the stores are filled as race control does it: per-task (or arbitrary) hand-overs
+          to_externalizable(clear=True) -> bulk_add from a second store, then calculate_results.
 Leg C2S : the recorded (store, results, normal-only results, reloaded results) of the S2C runs and of seeded random
           stores (wider values, more tasks, bigger bags) are validated by TLC against TraceStats.tla:
           L1 = clauses of C08, L2 = equality with the transcription.
@@ -211,9 +213,16 @@ class Impl:
             plugin_params={},
         )
 
-    def load_store(self, S, u, ot, rnd, normal_only=False, opn=None):
+    def load_store(self, S, u, ot, rnd, normal_only=False, opn=None, ho=0, sched=()):
+        """Fills a real InMemoryMetricsStore with the records of S and returns it.
+        ho = 0: the records are put straight into the store the results are calculated from.
+        ho = 1 / 2: the store is filled the way race control fills it (racecontrol.BenchmarkCoordinator.on_task_finished /
+        on_benchmark_complete): the request metrics are written into the load driver's own metrics store and handed over with
+        to_externalizable(clear=True) -> bulk_add in k >= 2 non-empty hand-overs, one per task of the schedule (ho = 1; a single
+        task with records is split in two) or cut at arbitrary points (ho = 2); system metrics are written directly."""
         metrics = self.metrics
         store = metrics.metrics_store(self.cfg, read_only=False, track="verif-track", challenge="verif-challenge", car=["defaults"])
+        target = store
         recs = [tuple(r) for r in S["recs"]]
         opn = opn or {}
         m, t, n, a0, step, fails, tn, gap = S["ap"]
@@ -223,16 +232,43 @@ class Impl:
         if normal_only:
             recs = [r for r in recs if r[3]]
         rnd.shuffle(recs)
+        chunk_of = {}
+        n_chunks = 1
+        if ho:
+            target = metrics.metrics_store(self.cfg, read_only=False, track="verif-track", challenge="verif-challenge", car=["defaults"])
+            task_recs = [r for r in recs if not r[0].startswith("g_")]
+            if ho == 1:
+                order = [e[0] for e in sched]
+                groups = [[r for r in task_recs if r[1] == name] for name in order] + [[r for r in task_recs if r[1] not in order]]
+                groups = [g for g in groups if g]
+                if len(groups) == 1 and len(groups[0]) > 1:
+                    g = groups[0]
+                    groups = [g[: len(g) // 2], g[len(g) // 2 :]]
+            else:
+                k = min(len(task_recs), 2 + len(task_recs) % 2)
+                groups = [task_recs[i::k] for i in range(k)] if k else []
+            n_chunks = max(1, len(groups))
+            for c, g in enumerate(groups):
+                for r in g:
+                    chunk_of.setdefault(r, []).append(c)  # equal records: one chunk index each
+            recs = [r for r in recs if r[0].startswith("g_")] + [r for g in groups for r in g]
+        cur = 0
         for idx, (m, t, own, nrm, v, ok, rt) in enumerate(recs):
+            if ho and not m.startswith("g_"):
+                c = chunk_of[(m, t, own, nrm, v, ok, rt)].pop(0)
+                if c != cur:
+                    store.bulk_add(target.to_externalizable(clear=True))  # TaskFinished: the driver's metrics reach the coordinator
+                    cur = c
+            dest = store if m.startswith("g_") else target
             st = metrics.SampleType.Normal if nrm else metrics.SampleType.Warmup
             if m == "g_tt":
                 # as telemetry.IndexStats writes it: a document with per-shard values
                 x = v if isinstance(u, int) else float(v)
-                store.put_doc({"name": REAL_NAME[m], "value": x, "unit": "ms", "per-shard": [x, x + 1]}, level=metrics.MetaInfoScope.cluster, absolute_time=1000 + idx, relative_time=rt)
+                dest.put_doc({"name": REAL_NAME[m], "value": x, "unit": "ms", "per-shard": [x, x + 1]}, level=metrics.MetaInfoScope.cluster, absolute_time=1000 + idx, relative_time=rt)
             elif m.startswith("g_"):
-                store.put_value_cluster_level(REAL_NAME[m], v if isinstance(u, int) else float(v), unit=UNIT[m], sample_type=st, absolute_time=1000 + idx, relative_time=rt)
+                dest.put_value_cluster_level(REAL_NAME[m], v if isinstance(u, int) else float(v), unit=UNIT[m], sample_type=st, absolute_time=1000 + idx, relative_time=rt)
             else:
-                store.put_value_cluster_level(
+                dest.put_value_cluster_level(
                     REAL_NAME[m],
                     v * u,
                     unit=UNIT[m],
@@ -244,6 +280,9 @@ class Impl:
                     relative_time=rt,
                     meta_data={"success": bool(ok)} if m != "tp" else None,
                 )
+        if ho:
+            store.bulk_add(target.to_externalizable())  # BenchmarkComplete: the rest
+            store.flush()
         return store
 
     def add_telemetry(self, store, k):
@@ -357,7 +396,8 @@ class Impl:
         ot = item.setdefault("ot", op_types(sched))
         opn = {e[0]: e[2] for e in sched}
         t, ch = self.track_for(sched, ot)
-        store = self.load_store(S, item["u"], ot, rnd, opn=opn)
+        ho = item.setdefault("ho", 0)
+        store = self.load_store(S, item["u"], ot, rnd, opn=opn, ho=ho, sched=sched)
         if item.get("tele") is not None:
             self.add_telemetry(store, item["tele"])
         race = self.new_race(t, ch)
@@ -375,7 +415,7 @@ class Impl:
         race.add_results(res)
         item["RL"], item["RS"], item["diff"] = self.persist_and_reload(race, res, sched, u)
         if any(not r[3] for r in S["recs"]):
-            store_n = self.load_store(S, item["u"], ot, rnd, normal_only=True, opn=opn)
+            store_n = self.load_store(S, item["u"], ot, rnd, normal_only=True, opn=opn, ho=ho, sched=sched)
             res_n = self.metrics.calculate_results(store_n, self.new_race(t, ch))
             item["RN"] = self.project(res_n, sched, u, "entries")
             item["DN"] = self.direct(store_n, sched, u, ot)
@@ -583,13 +623,13 @@ def _short(item):
 
 def _validate(out, items, name):
     index = {it["id"]: it for it in items}
-    payload = [{k: v for k, v in it.items() if k not in ("u", "crash", "ot", "tele")} for it in items]
+    payload = [{k: v for k, v in it.items() if k not in ("u", "crash", "ot", "tele", "ho")} for it in items]
     verdicts = tracecheck.validate("Stats", "TraceStats", "TraceStats.cfg", payload, name=name, chunk=4000, timeout=1500)
     out.traces_validated += verdicts.accepted(len(items))
     for tid, fails in verdicts.l1.items():
         it = index[tid]
         clauses = sorted({c for _, cl in fails for c in cl})
-        case = {k: it[k] for k in ("kind", "sched", "S", "u", "ot", "tele", "doc") if k in it}
+        case = {k: it[k] for k in ("kind", "sched", "S", "u", "ot", "tele", "ho", "doc") if k in it}
         out.violations.append(Violation(",".join(clauses), case, signature=_sig(it, clauses), detail=_short(it)))
     out.violations.sort(key=lambda v: (len(v.case.get("S", {}).get("recs", [])) + v.case.get("S", {}).get("ap", NOAP)[2], repr(v.case)))
     for tid in verdicts.l2:
@@ -628,6 +668,10 @@ def run(ctx, out):
         "system metrics (telemetry) are represented by indexing_total_time, node_total_young_gen_gc_time (sums), "
         "segments_memory_in_bytes (median), segments_count (int of median) and are never of warm-up type; all other result keys "
         "take part only in the == comparison of original and reloaded results",
+        "the store the results are calculated from is filled either directly or, in two thirds of the cases, the way race control fills "
+        "it: request metrics go into a second (load driver) store and reach the coordinator's store through k >= 2 non-empty "
+        "to_externalizable(clear=True) -> bulk_add hand-overs (per task as with TaskFinished / BenchmarkComplete, or cut at arbitrary "
+        "points); the model's store is the bag of ALL records, so every L1 clause is judged against all normal samples of the race",
         "JSON / the file system are trusted (real json module, real files under a scratch root.dir)",
     ]
     rnd = random.Random(ctx.seed + 8)
@@ -660,6 +704,7 @@ def run(ctx, out):
             it = {"id": "s%d" % n, "kind": "store", "sched": sched2, "S": S, "u": rnd.choice(SCALES)}
             if n % 4 == 0:
                 it["tele"] = n % 3
+            it["ho"] = (1, 2, 0)[n % 3]
             impl.run_store(it, rnd)
             kinds["ap" if S["ap"][2] > 0 else "store"] += 1
             out.add_case(("store", sched2, sorted(S["recs"], key=repr), S["ap"]), nontrivial=any(_n_normal(S, m, "t1") for m in TASK_METRICS))
@@ -671,7 +716,8 @@ def run(ctx, out):
             out.add_case(("doc", it["doc"]), nontrivial=bool(doc["has"]) or doc["hasOps"])
         items.append(it)
     out.exhaustive = True
-    out.note("leg S2C: %d TLC states executed on the real metrics code (%s); operation names: next task's name / shared / own" % (len(items), kinds))
+    out.note("leg S2C: %d TLC states executed on the real metrics code (%s); operation names: next task's name / shared / own; "
+             "store filled by hand-overs per task / by arbitrary hand-overs (to_externalizable -> bulk_add, as race control) / directly" % (len(items), kinds))
     for it in (items[len(items) // 3], next(i for i in items if i["kind"] == "store" and i["S"]["ap"][2] >= 100)):
         out.sample({"sched": it.get("sched"), "store": it.get("S"), "unit_scale": it["u"], "results_task1": it["R"]["ops"][0] if it["R"]["ops"] else None, "reload_diff": it["diff"]})
     # ---- seeded random stores, not derived from the model
@@ -684,6 +730,7 @@ def run(ctx, out):
         it["ot"] = op_types(it["sched"], rnd)
         if n % 3 == 0:
             it["tele"] = n % 5
+        it["ho"] = (1, 0, 2, 1)[n % 4]
         impl.run_store(it, rnd)
         rnd_items.append(it)
         out.add_case(("store", it["sched"], sorted(it["S"]["recs"], key=repr), it["S"]["ap"]), nontrivial=any(_n_normal(it["S"], m, t) for m in TASK_METRICS for t, *_ in it["sched"]))
